@@ -272,6 +272,39 @@ impl Scenario for Stream {
             };
             let call_cap = count + script.len() + 8;
             let mut ep = Scripted::new(script.clone(), stream_total, call_cap + 40);
+            // the same script can instead be played by a real descriptor whose read(2)/write(2)
+            // outcomes the syscall seam decides
+            let use_fd = cx().a(3) == 0;
+            let is_read_op = matches!(opk, OpK::ReadFrom | OpK::ReadExactFrom | OpK::DirectReadExact);
+            let mut fdfile = crate::gmworld::memfd(0);
+            if use_fd {
+                use std::os::fd::AsRawFd;
+                if is_read_op {
+                    let data: Vec<u8> = (0..stream_total).map(stream_byte).collect();
+                    // SAFETY: our own descriptor and buffer.
+                    unsafe {
+                        libc::write(fdfile.as_raw_fd(), data.as_ptr() as *const libc::c_void, data.len());
+                        libc::lseek(fdfile.as_raw_fd(), 0, libc::SEEK_SET);
+                    }
+                }
+                cx().sys.io_script = script
+                    .iter()
+                    .map(|b| match b {
+                        Beh::Full => crate::sys::IoVerdict::Pass,
+                        Beh::Short(k) => crate::sys::IoVerdict::Shorten(1 + k % 48),
+                        Beh::Zero => crate::sys::IoVerdict::Zero,
+                        Beh::Intr => crate::sys::IoVerdict::Errno(libc::EINTR),
+                        Beh::Hard(k) => crate::sys::IoVerdict::Errno(match k {
+                            ErrorKind::WouldBlock => libc::EAGAIN,
+                            ErrorKind::BrokenPipe => libc::EPIPE,
+                            ErrorKind::PermissionDenied => libc::EACCES,
+                            _ => libc::EIO,
+                        }),
+                    })
+                    .collect();
+                cx().sys.io_log.clear();
+                cx().sys.io_call_cap = Some(call_cap + 40);
+            }
             let before_all = self.snapshot(layer, slice_ptr, slice_len, gw.as_ref());
             cx().mode = Mode::Actor;
             cx().op_begin(step as u64);
@@ -279,24 +312,76 @@ impl Scenario for Stream {
                 Layer::Slice => {
                     // SAFETY: arena memory outlives the run.
                     let vs = unsafe { VolatileSlice::new(slice_ptr, slice_len) };
-                    run_op(&vs, start as usize, opk, count, &mut ep, |v, a, n| v.get_slice(a, n).map_err(|e| format!("{:?}", e)))
+                    if use_fd {
+                        run_op(&vs, start as usize, opk, count, &mut fdfile, |v, a, n| v.get_slice(a, n).map_err(|e| format!("{:?}", e)))
+                    } else {
+                        run_op(&vs, start as usize, opk, count, &mut ep, |v, a, n| v.get_slice(a, n).map_err(|e| format!("{:?}", e)))
+                    }
                 }
                 Layer::Region => {
                     let w = gw.as_ref().unwrap();
                     let r = w.gm.find_region(GuestAddress(w.regs[0].base)).unwrap();
-                    run_op(r, MemoryRegionAddress(start), opk, count, &mut ep, |r, a, n| {
-                        use vm_memory::GuestMemoryRegion;
-                        r.get_slice(a, n).map_err(|e| format!("{:?}", e))
-                    })
+                    if use_fd {
+                        run_op(r, MemoryRegionAddress(start), opk, count, &mut fdfile, |r, a, n| {
+                            use vm_memory::GuestMemoryRegion;
+                            r.get_slice(a, n).map_err(|e| format!("{:?}", e))
+                        })
+                    } else {
+                        run_op(r, MemoryRegionAddress(start), opk, count, &mut ep, |r, a, n| {
+                            use vm_memory::GuestMemoryRegion;
+                            r.get_slice(a, n).map_err(|e| format!("{:?}", e))
+                        })
+                    }
                 }
                 Layer::Gm => {
                     let w = gw.as_ref().unwrap();
-                    run_op(&w.gm, GuestAddress(start), opk, count, &mut ep, |g, a, n| g.get_slice(a, n).map_err(|e| format!("{:?}", e)))
+                    if use_fd {
+                        run_op(&w.gm, GuestAddress(start), opk, count, &mut fdfile, |g, a, n| g.get_slice(a, n).map_err(|e| format!("{:?}", e)))
+                    } else {
+                        run_op(&w.gm, GuestAddress(start), opk, count, &mut ep, |g, a, n| g.get_slice(a, n).map_err(|e| format!("{:?}", e)))
+                    }
                 }
             };
             cx().op_end(step as u64, 0);
             cx().mode = Mode::Setup;
-            let desc = format!("{:?} {:?} start={:#x} count={} room={} stream_len={} script={:?} -> {:?} after {} endpoint call(s)", layer, opk, start, count, room, stream_total, script, res, ep.calls.len());
+            if use_fd {
+                use std::os::fd::AsRawFd;
+                cx().sys.io_script.clear();
+                cx().sys.io_call_cap = None;
+                let log = std::mem::take(&mut cx().sys.io_log);
+                for c in &log {
+                    let n = c.ret.max(0) as usize;
+                    let beh = match c.verdict {
+                        crate::sys::IoVerdict::Errno(libc::EINTR) => Beh::Intr,
+                        crate::sys::IoVerdict::Errno(_) => Beh::Hard(ErrorKind::Other),
+                        crate::sys::IoVerdict::Zero => Beh::Zero,
+                        _ if c.ret < 0 => Beh::Hard(ErrorKind::Other),
+                        _ if n == 0 => Beh::Zero,
+                        _ if n < c.len => Beh::Short(c.len - n),
+                        _ => Beh::Full,
+                    };
+                    match beh {
+                        Beh::Short(_) => cx().count("fault.fd_short"),
+                        Beh::Zero => cx().count("fault.fd_zero_or_eof"),
+                        Beh::Intr => cx().count("fault.fd_eintr"),
+                        Beh::Hard(_) => cx().count("fault.fd_hard_error"),
+                        Beh::Full => {}
+                    }
+                    ep.calls.push(Call { buf_len: c.len, buf_addr: c.buf, beh, n });
+                }
+                let moved_fd: usize = ep.calls.iter().map(|c| c.n).sum();
+                if !is_read_op {
+                    let mut got = vec![0u8; moved_fd];
+                    // SAFETY: pread into our own buffer.
+                    let k = unsafe { libc::pread(fdfile.as_raw_fd(), got.as_mut_ptr() as *mut libc::c_void, moved_fd, 0) };
+                    got.truncate(k.max(0) as usize);
+                    ep.accepted = got;
+                }
+                cx().count("cell.endpoint_descriptor");
+            } else {
+                cx().count("cell.endpoint_scripted");
+            }
+            let desc = format!("{:?} {:?} {} start={:#x} count={} room={} stream_len={} script={:?} -> {:?} after {} endpoint call(s)", layer, opk, if use_fd { "descriptor" } else { "scripted" }, start, count, room, stream_total, script, res, ep.calls.len());
             log.push(desc.clone());
             if script.iter().any(|b| *b != Beh::Full) {
                 faults_seen = true;
@@ -498,7 +583,7 @@ impl Stream {
     }
 }
 
-fn run_op<A: Copy, T: Bytes<A>>(t: &T, at: A, opk: OpK, count: usize, ep: &mut Scripted, get_slice: impl Fn(&T, A, usize) -> Result<VolatileSlice<'_, ()>, String>) -> Res
+fn run_op<A: Copy, T: Bytes<A>, EP: ReadVolatile + WriteVolatile>(t: &T, at: A, opk: OpK, count: usize, ep: &mut EP, get_slice: impl Fn(&T, A, usize) -> Result<VolatileSlice<'_, ()>, String>) -> Res
 where
     T::E: Debug,
 {
